@@ -2,8 +2,7 @@
 
 Proved (lean/Paroxy/Props/C14.lean) about the exception-flow skeleton `Paroxy.Collect.collect` /
 `tagMain`, for all behaviours of the externals: abort-or-record characterisation, every file reported
-when cleaning does not raise (+ counterexample when it does), others unaffected, closure terminates,
-`tag` reports.
+whatever the cleaning raises (fix c7d362e), others unaffected, closure terminates, `tag` reports.
 
 Tie (this file): directories mixing valid programs with a malformed stream, under both cleanup
 strategies, through the real `TagDatabase` and `cli_tag.main`; the behaviour of the externals
@@ -20,7 +19,6 @@ from pathlib import Path
 from . import core
 from . import c11
 
-CLEAN_SIG = "cleanup=full: an exception raised by tokenisation inside Cleanup.full_cleaning aborts collect (list_programs calls Cleanup.run outside any try)"
 
 VALID = [
     "x = 1\n",
@@ -107,15 +105,20 @@ class Oracle:
         self.parse = {}
 
     def clean_of(self, strategy, raw):
+        """The external `clean` of the model: `Cleanup.full_cleaning` itself (which may raise) for `full`, the
+        identity for `none`. The catch-all fallback of `safe_full_cleaning` is in the model (`safeClean`)."""
         from paroxython.preprocess_source import Cleanup
         t = self.clean[strategy]
         if raw not in t:
-            try:
-                t[raw] = {"ok": str(Cleanup(strategy).run(raw))}
-            except RecursionError:
-                raise
-            except Exception as e:  # noqa
-                t[raw] = exc_info(e)
+            if strategy != "full":
+                t[raw] = {"ok": raw}
+            else:
+                try:
+                    t[raw] = {"ok": str(Cleanup.full_cleaning(raw))}
+                except RecursionError:
+                    raise
+                except Exception as e:  # noqa
+                    t[raw] = exc_info(e)
         return t[raw]
 
     def prepare_of(self, text):
@@ -153,10 +156,10 @@ class Oracle:
         for raw in dict.fromkeys(raws):
             c = self.clean_of(strategy, raw) if strategy else {"ok": raw}
             cl.append([raw, c])
-            if "ok" in c:
-                s = self.prepare_of(c["ok"])
-                pr.append([c["ok"], s])
-                pa.append([s, self.parse_of(s)])
+            text = c["ok"] if "ok" in c else raw  # safe_full_cleaning: fall back to the uncleaned text
+            s = self.prepare_of(text)
+            pr.append([text, s])
+            pa.append([s, self.parse_of(s)])
         return {"clean": cl, "prepare": [list(x) for x in dict.fromkeys(map(tuple, pr))],
                 "parse": [x for i, x in enumerate(pa) if x[0] not in [y[0] for y in pa[:i]]]}
 
@@ -193,11 +196,9 @@ def judge(ctx, drv, orc, files, root, out_dir, strategy):
     info = []
     for p in order:
         c = next(v for k, v in tables["clean"] if k == raws[p])
-        if "ok" in c:
-            s = next(v for k, v in tables["prepare"] if k == c["ok"])
-            pr = next(v for k, v in tables["parse"] if k == s)
-        else:
-            pr = None
+        text = c["ok"] if "ok" in c else raws[p]
+        s = next(v for k, v in tables["prepare"] if k == text)
+        pr = next(v for k, v in tables["parse"] if k == s)
         info.append({"path": p, "clean": "ok" if "ok" in c else c["exc"],
                      "parse": None if pr is None else ("empty" if "empty" in pr else "valid" if "labels" in pr
                                                        else "features:" + pr["features_exc"]["exc"] if "features_exc" in pr else pr["exc"])})
@@ -209,11 +210,7 @@ def judge(ctx, drv, orc, files, root, out_dir, strategy):
     if "exc" in impl:
         # the property is violated: the collection aborted
         agree = "exc" in m and m["exc"] == impl["exc"]
-        sig = None
-        if agree and m.get("stage") == "clean" and strategy == "full" and impl["exc"] in (
-                "TokenError", "IndentationError", "TabError", "SyntaxError", "SystemError"):
-            sig = CLEAN_SIG
-        v.update(kind="violation", what=f"collect aborted with {impl['exc']} (cleanup={strategy})", signature=sig,
+        v.update(kind="violation", what=f"collect aborted with {impl['exc']} (cleanup={strategy})", signature=None,
                  model_agrees=agree)
         if not agree:
             v["corr_broken"] = True
@@ -378,12 +375,12 @@ def stream_dirs(ctx, drv, orc, n_dirs):
                     w = judge(ctx, drv, orc, others, root2, root2.parent, strategy)
                     ctx.count("others-unaffected", key, nontrivial=True)
                     if w["kind"] == "ok":
-                        baddotted = {b.replace("/", ".") for b in bad}
+                        badset = set(bad)
                         for p in others:
                             # NotImporting (Proofs/Collect.lean): no label of p names a bad file's module
                             names = list(w["json"]["programs"][p]["labels"])
                             found = drv.call("c11.relabel", paths=[], names=names)["search"]
-                            imports_bad = any(m is not None and m + ".py" in baddotted for m in found)
+                            imports_bad = any(m is not None and m.replace(".", "/") + ".py" in badset for m in found)
                             if not imports_bad and v["json"]["programs"][p] != w["json"]["programs"][p]:
                                 ctx.violations.append({
                                     "what": f"record of {p} changes when the bad files are removed",
@@ -395,9 +392,8 @@ def stream_dirs(ctx, drv, orc, n_dirs):
                 ctx.notes.append({"files": files, "cleanup": strategy, "what": v["what"], "externals": v["info"],
                                   "impl": v["impl"], "model": v["model"]})
             else:
-                if v.get("signature") and seen_known >= 1:
-                    # already shrunk one instance of the known finding; just record this one
-                    record_violation(ctx, v, files, strategy)
+                if seen_known >= 2:
+                    record_violation(ctx, v, files, strategy)  # enough shrunk instances
                     continue
                 small = shrink(ctx, drv, orc, base, files, strategy, v, tag)
                 root3 = base / f"{tag}-min" / "progs"
@@ -405,8 +401,7 @@ def stream_dirs(ctx, drv, orc, n_dirs):
                 w = judge(ctx, drv, orc, small, root3, root3.parent, strategy)
                 if w["kind"] != "violation":
                     small, w = files, v
-                if w.get("signature"):
-                    seen_known += 1
+                seen_known += 1
                 record_violation(ctx, w, small, strategy)
         if i % 10 == 9:
             import shutil
@@ -545,7 +540,7 @@ def run(ctx):
     ctx.assumptions += [
         "texts contain no Paroxython hint comment (property quantifier); nesting below the interpreter's limits",
         "ast.parse raises only SyntaxError/ValueError instances whose class name has no colon (ParseCaught)",
-        "every direct internal import names a collected path (Resolved; open finding F21 of C11)",
+        "the feature search produces no label of the form import_internally:… (FeaturesPlain; only a hint could)",
     ]
     if (not ctx.proofs_ok or ctx.broken) and not any(v.get("signature") is None for v in ctx.violations):
         ctx.violations.append({
